@@ -626,6 +626,9 @@ func (ff *FuncFacts) Exits() []Exit {
 		if len(b.Instrs) == 0 {
 			continue
 		}
+		if b == fn.Recover {
+			continue // synthetic block executed only after a recovered panic
+		}
 		switch last := b.Instrs[len(b.Instrs)-1].(type) {
 		case *ssa.Panic:
 			out = append(out, Exit{Kind: ExitPanic, Block: b, Pos: last.Pos(), Desc: "panic(" + ff.Term(last.X) + ")"})
@@ -667,6 +670,13 @@ func (ff *FuncFacts) classify(v ssa.Value, b *ssa.BasicBlock, ret *ssa.Return, d
 		case *ssa.MakeInterface:
 			return mk(ExitReject, nil, desc)
 		case *ssa.UnOp:
+			if al, ok := x.X.(*ssa.Alloc); ok && x.Op == token.MUL && depth < 3 {
+				// named / defer-spilled result: classify the store that reaches the return
+				sts, zero := reachingStores(al, x)
+				if len(sts) == 1 && !zero {
+					return ff.classify(sts[0].Val, b, ret, depth+1)
+				}
+			}
 			if _, ok := x.X.(*ssa.Global); ok && x.Op == token.MUL {
 				return mk(ExitReject, nil, desc) // sentinel error variable
 			}
